@@ -154,13 +154,13 @@ class ExecResolve(ExecCall):
             self.cur_cls = saved_cls
         for s, oc in outs:
             if oc is None:
-                s.env = saved_env
+                s.env = dict(saved_env)
                 yield s, NONE
             elif oc[0] == "return":
-                s.env = saved_env
+                s.env = dict(saved_env)
                 yield s, oc[1]
             elif oc[0] == "raise":
-                s.env = saved_env
+                s.env = dict(saved_env)
                 self.pending.append((s, oc))
             else:
                 raise EngineError(f"outcome {oc[0]} escaping function")
@@ -201,6 +201,25 @@ class ExecResolve(ExecCall):
                 self.oblige("pre", st, t, f"precondition of {c.name}: {r}", name=f"{callid}.{i}")
         if not c.verify or c.trusted:
             self.trusted_used.add(c.name)
+        # exceptional exits declared by the contract: fork a raising path, continue under the negation
+        raise_guard = None
+        if c.raises:
+            conds = []
+            for exc, when in c.raises.items():
+                if exc == "*":
+                    continue
+                t = self.eval_spec(when, st, self.with_lets(st, c, env))
+                conds.append(t)
+                if not spec_call:
+                    s_r = st.fork()
+                    s_r.assume(t)
+                    s_r.path += "!"
+                    if self.feasible(s_r):
+                        self.pending.append((s_r, ("raise", exc)))
+            if conds:
+                raise_guard = z3.Not(z3.Or(conds))
+                if not spec_call:
+                    st.assume(raise_guard)
         # effects
         snap = st.snapshot()
         snap.pre = st.pre
@@ -236,7 +255,8 @@ class ExecResolve(ExecCall):
             return
         self.spec_inst_depth += 1
         try:
-            yield from self._assume_ensures(st, c, env, res, snap, spec_call, req_terms)
+            yield from self._assume_ensures(st, c, env, res, snap, spec_call,
+                                            req_terms + ([raise_guard] if (spec_call and raise_guard is not None) else []))
         finally:
             self.spec_inst_depth -= 1
 
@@ -315,6 +335,7 @@ class ExecResolve(ExecCall):
                 rng = z3.And(0 <= j, j < SLen(v.t))
                 el = SAt(v.t, j)
                 facts = [w.isinstance_term(el, w.cls(ek[1]))] if ek[1] else [el != w.null]
+                facts.append(w.born(el) < st.clock + (1 if snap is not None else 0))
                 out.append(z3.ForAll([j], z3.Implies(rng, z3.And(facts))))
         return out
 
@@ -422,5 +443,5 @@ class ExecResolve(ExecCall):
         finally:
             pass
         for s2, v in outs:
-            s2.env = saved
+            s2.env = dict(saved)
             yield s2, v
